@@ -11,10 +11,10 @@ CHECK = {
     "tests": [
         T("workerclient", "TestC08RunModel",
           {"checks": 80000, "shards": 2, "timeout": 300},
-          {"checks": 1500000, "shards": 12, "timeout": 1500}),
+          {"checks": 600000, "shards": 12, "timeout": 1500}),
         T("workerclient", "TestC08WorkerThreadLoop",
           {"checks": 30000, "shards": 2, "timeout": 300},
-          {"checks": 600000, "shards": 4, "timeout": 1500}),
+          {"checks": 250000, "shards": 4, "timeout": 1500}),
     ],
 }
 META = {
